@@ -42,7 +42,9 @@ ASSUMPTIONS = [
 RULE = ("exhaustive histories up to length 4/5 over {new Emp, new Mgr, new Org, drop, sweep, query} + fixed families "
         "(re-evaluated query objects, diamond hierarchy, clear, classes defined in the middle of the history after "
         "their ancestors were queried, temporaries created and discarded back to back, lazily consumed evaluations advanced "
-        "one next() at a time with instances of the queried class / a subclass created or dropped in between, container-like "
+        "one next() at a time with instances of the queried class / a subclass created or dropped in between or - after "
+        "clear() - made known to the registry again by a relation, a managed field, a role assertion or an adopted "
+        "container, container-like "
         "Symbols that are falsy while empty, instances made by copy / deepcopy / pickle / to_dao().from_dao() incl. nested "
         "ones) + random histories of 4-18 "
         "operations over 9 classes plus classes defined on the way, relations, explicit-domain queries; non-trivial = at least one query returned at least one instance; "
@@ -159,6 +161,33 @@ def generate(rng, tier, n):
         cases.append(_case([["new", 0, T], ["new", 1, T], ["qstart", 1, T], ["qstart", 2, T], ["qnext", 1], ["new", 2, T],
                             ["qnext", 2], ["new", 3, T], ["qnext", 1], ["qnext", 2], ["qnext", 1], ["qnext", 2],
                             ["qnext", 1], ["qnext", 2], ["qnext", 1], ["qnext", 2]], ("family", "stepwise"), "exhaustive"))
+    # lazily consumed evaluations and instances that become known AGAIN: after clear() live instances are unknown to the
+    # registry until something wraps them (an end of a relation, a managed field, a role assertion, the items of an
+    # adopted container); when that happens while an evaluation is suspended they are new to it like created ones
+    # (1, 2: Mgr; 3, 4: Org; 6: Emp with the role 7; 5 / 9: the instance the first next() yields; 8: Thing)
+    pre = [["new", 1, 3], ["new", 2, 3], ["new", 3, 1], ["new", 4, 1], ["new", 6, 2], ["newrole", 7, 6], ["new", 8, 0],
+           ["set", 3, 3, 4], ["clear"]]
+    late = [
+        [["rel", 5, 1, 2]],                    # source and target
+        [["rel", 5, 5, 2]], [["rel", 4, 9, 2]],  # the target only
+        [["rel", 5, 1, 5]], [["rel", 4, 1, 9]],  # the source only
+        [["rel", 5, 5, 8]], [["rel", 5, 8, 5]],  # an instance of the class that is being walked
+        [["set", 0, 1, 3]], [["set", 1, 2, 4]], [["set", 2, 3, 1]],  # descriptor fields, with their inferences
+        [["set", 3, 3, 4]], [["set", 3, 4, 3]],
+        [["head", 7, 3]], [["manage", 7, 4]],    # role assertions: the role, the organisation, the role taker
+        [["newrole", 20, 6]], [["newrole", 20, 6], ["head", 20, 4]],
+        [["adopt", 20, 3, 3]],                   # a new owner for the container of 3: its item 4 is wrapped again
+        [["rel", 5, 1, 2], ["drop", 1]], [["set", 0, 1, 3], ["drop", 3]],
+    ]
+    for T, first in ((0, [["new", 5, 0], ["new", 9, 0]]), (0, [["new", 5, 1], ["new", 9, 1]]),
+                     (2, [["new", 5, 2], ["new", 9, 2]]), (1, [["new", 5, 1], ["new", 9, 1]])):
+        for ops in late:
+            nexts = [["qnext", 1]] * 9
+            cases.append(_case(pre + [["qstart", 1, T]] + first + [["qnext", 1]] + ops + nexts + [["query", T]],
+                               ("family", "stepwise", "known-again"), "exhaustive"))
+            # the same before the first next(): the evaluation has not started, everything belongs to its census
+            cases.append(_case(pre + [["qstart", 1, T]] + first + ops + nexts + [["query", T]],
+                               ("family", "stepwise", "known-again"), "exhaustive"))
     for c in (2, 3, 7):
         for k in (1, 4):
             cases.append(_case([["churn", 0, k, c], ["new", 50, c], ["sweep"], ["rel", 4, 50, 50], ["query", c],
